@@ -19,7 +19,8 @@ EXTRACT = ["C15"]
 BINS = ["c15"]
 NEEDS_CICADA = True
 ALLOWED_AXIOMS = []
-PINNED = ["C15_args", "C15_args_newline_refuted", "C15_func_status", "C15_sete_flat",
+PINNED = ["C15_args", "C15_args_newline_refuted", "C15_func_status", "C15_sete_flat", "C15_sete_calls_instances",
+          "C15_sete_source_refuted",
           "C15_sete_nested_refuted", "C15_full", "C15_refuted"]
 TRUSTED = [
     "Coq 8.16.1 kernel (coqc; coqchk in thorough); vm_compute in Example witnesses and in C15_sete_nested_refuted",
@@ -27,13 +28,17 @@ TRUSTED = [
     "extraction loop of run_script and of the status rules (coq/theories/Model/Args.v); the two regexes are modelled as "
     "hand-written first-match functions; tied by L1 (positional parameters) and L2 (function table, statuses)",
     "Model/Script.v (run_exp with exit_on_error) for the set -e statements, tied by C14's layers and by L2 here",
+    "Model/ShellScript.v: exit_on_error and the function table as shell state threaded through run_script / run_lines / "
+    "try_run_func / source with the reset at the end of run_script; extracted and used as the reference of layer L2b "
+    "(set -e x function calls x source); only computed instances are proved about it (C15_sete_calls_instances)",
     "extraction: ExtrOcamlBasic only; OCaml 4.13.1; ocaml/c15/drv.ml",
     "harness/src/bin/c15.rs, helpers/hp.c, drive/c15.py (the L2 reference for functions / source / exit is the python "
     "oracle in this file, not an extracted model)",
 ]
 ASSUMES = [
     "the line-continuation folding of run_script, file lookup, `source` and `exit` builtins are not modelled in Coq; "
-    "they are exercised by L2 only",
+    "they are exercised by L2 only; THE L2 REFERENCE FOR FUNCTIONS / SOURCE CHAINS / EXIT IS A PYTHON ORACLE (drive/c15.py), "
+    "not an extracted model; L2b's reference is the extracted Model/ShellScript.v plus the python property oracle ref_sete",
     "C15_args speaks about one token; tokenising the line before and re-rendering it after (parse_line, tokens_to_line) "
     "is C01/C16's subject -- generated script lines use plain words and single blanks",
 ]
